@@ -25,6 +25,14 @@ When finished leave in {wt}/seed/ :
   - demo_test.go : a copy of your demonstration test
   - meta.json    : {{"property": "{pid}", "summary": "<one paragraph: what was changed>", "needs": "<what specific interleaving / fault / sequence / input is needed for the violation to manifest>", "ran": ["<commands you ran and their outcome>"]}}
 Do not commit anything. Your final message should summarise the change, what it needs to manifest, and the demo results with and without the change (actual command output tails).'''
+FOCUS = [
+    "two operator commands overlapping in time (issued by different operators, e.g. a deploy while a pause, stop, remove or rollout command is still running)",
+    "a timing boundary: a timeout, interval or deadline landing just before or just after another event, or two timers with different lengths being confused",
+    "an error or cleanup path: a failing command, a failing target or an aborted request leaving something behind, or cleaning up something that is still in use",
+    "an optimisation: a cache, a pool, a reused buffer or object, an atomic flag or a lock-free fast path that is correct for one request or command at a time",
+    "state that has to survive or be rebuilt: copying a service for a redeploy, restoring from the state file, or re-deriving a table after a change",
+    "an unusual but legal input shape (header, path, host, cookie, body chunking or flag combination) that takes a rarely used branch",
+]
 suffix = sys.argv[1]
 os.makedirs('/tmp/seed/prompts', exist_ok=True)
 for pid in sys.argv[2:]:
@@ -36,5 +44,8 @@ for pid in sys.argv[2:]:
         used.append(json.load(open(f))['summary'].replace('\n', ' ')[:350])
     if used:
         s += "\n\nAdditional constraint: earlier seeded defects for this property already used the following ideas (each quoted from its summary, truncated):\n" + "\n".join(' - "%s..."' % u for u in used) + "\nDo NOT reuse them or close variants; find a different mechanism, preferably in a different function or file" + (", and preferably one that needs a specific thread interleaving or timing (not just a command sequence) to manifest.\n" if 'schedules' in p['quantifier'].get('over', []) else ".\n")
+    if os.environ.get('SEED_FOCUS'):
+        k = (int(pid[1:]) + int(os.environ['SEED_FOCUS'])) % len(FOCUS)
+        s += "\nSuggested direction for this round (use it if it fits the property, otherwise pick your own): " + FOCUS[k] + ".\n"
     open(f'/tmp/seed/prompts/{pid}-{suffix}.txt', 'w').write(s)
     print(pid, len(s))
